@@ -144,6 +144,7 @@ def build_ops(cls):
     add('mut:remove_average', 'mut', lambda o: o.remove_average(section=10))
     add('mut:remove_poly', 'mut', lambda o: o.remove_poly(2))
     add('mut:running_average', 'mut', lambda o: o.running_average(5))
+    add('mut:running_average(window longer than the record)', 'mut', lambda o: o.running_average(2 * len(o.values) + 1))
     if cls == 'AccSignal':
         add('mut:remove_rolling_average_velocity', 'mut', lambda o: o.remove_rolling_average('velocity', freq_window=10))
         add('mut:remove_rolling_average_acc', 'mut', lambda o: o.remove_rolling_average('acc', freq_window=10))
